@@ -184,7 +184,10 @@ class HashedIterable(Generic[T]):
             return self.values[id_]
         except KeyError:
             for v in self.iterable:
-                self.values[v.id_] = v
+                if v.id_ not in self.values:
+                    self.values[v.id_] = v
+                    # a suspended iteration over this object has to be handed what is pulled here as well.
+                    self.pulled.append(v)
                 if v.id_ == id_:
                     return v
             raise KeyError(id_)
